@@ -84,3 +84,46 @@ pub fn vis3(seq: u64, horizon: u64) -> bool {
 pub fn vis_wrong(seq: u64, horizon: u64) -> bool {
 	seq < horizon
 }
+
+/// private helpers inside a module are spliced into their callers (skvlint/inline.py): the rules must see
+/// `fsync` inside `commit` although it is called through `seal`, and tabulate `vis4` through `le`.
+pub mod store {
+	pub struct Log {
+		n: u32,
+	}
+	fn fsync(_n: u32) -> Result<(), super::E> {
+		Ok(())
+	}
+	fn ack(_n: u32) {}
+	impl Log {
+		pub fn commit(&mut self, x: u32) -> Result<(), super::E> {
+			self.n += x;
+			self.seal()?;
+			ack(self.n);
+			Ok(())
+		}
+		/// no durability point at all: must be reported
+		pub fn commit_unsynced(&mut self, x: u32) -> Result<(), super::E> {
+			self.n += x;
+			self.note();
+			ack(self.n);
+			Ok(())
+		}
+		fn seal(&mut self) -> Result<(), super::E> {
+			if self.n == 0 {
+				return Err(super::E);
+			}
+			fsync(self.n)?;
+			Ok(())
+		}
+		fn note(&mut self) {
+			self.n += 0;
+		}
+	}
+	fn le(a: u64, b: u64) -> bool {
+		a <= b
+	}
+	pub fn vis4(seq: u64, horizon: u64) -> bool {
+		le(seq, horizon)
+	}
+}
